@@ -2,6 +2,7 @@ package main
 
 import (
 	"fmt"
+	"math/big"
 	"sort"
 	"strings"
 )
@@ -11,9 +12,10 @@ import (
 // mutated, so that verdicts are mixed and decided deep inside the schema.
 
 var (
-	namePool  = []string{"a", "b", "c", "d", "e", "ab"}
-	strPool   = []string{"", "a", "ab", "abc", "b", "é", "日本語", "a b", "x"}
-	numPool   = []string{"0", "1", "-1", "2", "3", "4", "1.5", "0.5", "2.5", "10", "-2", "7", "9007199254740992", "-9007199254740992", "9007199254740991", "1.0", "2.0", "100", "1e2", "1.5e1", "100e-2", "2E3", "1.0e0", "-1E+1", "25e-1"}
+	namePool = []string{"a", "b", "c", "d", "e", "ab"}
+	strPool  = []string{"", "a", "ab", "abc", "b", "é", "日本語", "a b", "x"}
+	numPool  = []string{"0", "1", "-1", "2", "3", "4", "1.5", "0.5", "2.5", "10", "-2", "7", "9007199254740992", "-9007199254740992", "9007199254740991", "1.0", "2.0", "100", "1e2", "1.5e1", "100e-2", "2E3", "1.0e0", "-1E+1", "25e-1",
+		"-0", "-0.0", "9223372036854775808", "18446744073709551615", "-9223372036854775808", "9223372036854775807", "1e19"}
 	multPool  = []string{"1", "2", "0.5", "0.25", "3", "1.5", "4"}
 	patPool   = []string{"^a", "b$", "^[a-c]+$", "a|é", ".", "^$", "^(ab)+$", "[0-9]", "^\\p{L}+$"}
 	typePool  = []string{"null", "boolean", "integer", "number", "string", "array", "object"}
@@ -35,7 +37,7 @@ type genCtx struct {
 func (g *genCtx) num() string {
 	for {
 		n := pick(g.r, numPool)
-		if !g.smallNums || len(n) < 10 {
+		if !g.smallNums || !bigLit(n) {
 			return n
 		}
 	}
@@ -454,6 +456,12 @@ func (g *genCtx) instFor(root Doc, s Doc, depth int) Doc {
 			out = append(out, out[r.intn(len(out))]) // a duplicate, for uniqueItems
 		}
 		if r.chance(1, 8) {
+			// the same number twice under different spellings (and, after repValue, different Go types)
+			pr := pick(r, [][2]string{{"0", "-0"}, {"1", "1.0"}, {"9223372036854775808", "9.223372036854775808e18"}, {"18446744073709551615", "18446744073709551615"},
+				{"-0.0", "0"}, {"100", "1e2"}, {"9007199254740992", "9007199254740992.0"}})
+			out = append(out, DNum(pr[0]), DNum(pr[1]))
+		}
+		if r.chance(1, 8) {
 			// a bucket with three entries: unequal values for which hashValue writes the same
 			// bytes under every seed (null/false, true/"\x01", ["a","b"]/["ab",""]), around a real duplicate
 			pairs := [][2]Doc{{DNull{}, DBool(false)}, {DBool(true), DStr("\x01")}, {DArr{DStr("a"), DStr("b")}, DArr{DStr("ab"), DStr("")}}}
@@ -650,7 +658,7 @@ func init() {
 func hasBigNumber(d Doc) bool {
 	switch x := d.(type) {
 	case DNum:
-		return len(string(x)) >= 10
+		return bigLit(string(x))
 	case DArr:
 		for _, e := range x {
 			if hasBigNumber(e) {
@@ -668,3 +676,9 @@ func hasBigNumber(d Doc) bool {
 }
 
 func docEq(a, b Doc) bool { return renderJSON(a) == renderJSON(b) }
+
+// bigLit: the literal denotes a number of magnitude >= 10^9 (spelling does not matter: 1e19 counts)
+func bigLit(lit string) bool {
+	r := ratOf(lit)
+	return new(big.Rat).Abs(r).Cmp(big.NewRat(1000000000, 1)) >= 0
+}
